@@ -196,26 +196,27 @@ def determinism_slice(mod, units):
     return len(units), outs[0] == outs[1], None
 
 
-def debuglog_slice(mod, units):
+def debuglog_slice(mod, units, level="DEBUG"):
     """
-    The same slice with DEBUG logging enabled for the package (an application that turns on debug
-    logging must not change what the library accepts, raises or delivers).
+    The same slice with the package's logger set to `level`: an application that turns on DEBUG
+    logging, or silences the package with CRITICAL, must not change what the library accepts, raises,
+    delivers or reports to its error handler.
     """
     env = dict(os.environ)
     env["PYTHONHASHSEED"] = "0"
     env["VERIF_NO_REEXEC"] = "1"
     env["VERIF_NPROC"] = "4"
-    env["VERIF_PYUBX2_LOGLEVEL"] = "DEBUG"
+    env["VERIF_PYUBX2_LOGLEVEL"] = level
     proc = subprocess.run(
         [sys.executable, os.path.join(core.VERIF_DIR, "dst.py"), "units", mod.PROPERTY],
         input=json.dumps(units), capture_output=True, text=True, env=env, timeout=1200, check=False,
     )
     line = [l for l in proc.stdout.splitlines() if l.startswith("UNITVIOLATIONS ")]
     if proc.returncode != 0 or not line:
-        return [], 0, f"debug-logging slice rc={proc.returncode}: {proc.stderr[-400:]}"
+        return [], 0, f"{level}-logging slice rc={proc.returncode}: {proc.stderr[-400:]}"
     data = json.loads(line[0][15:])
     for scn in data["violations"]:
-        scn["environment"] = {"VERIF_PYUBX2_LOGLEVEL": "DEBUG"}
+        scn["environment"] = {"VERIF_PYUBX2_LOGLEVEL": level}
     return data["violations"], data["evaluations"], None
 
 
@@ -370,11 +371,19 @@ def run_check(mod, tier, base_seed, budget_s=None, quiet=False):
         for scn in d_viol:
             if signature(mod, scn) not in known_sigs:
                 total.violations.append(scn)
+        q_viol, q_evals, err = debuglog_slice(mod, o_all, "CRITICAL")
+        dbg["critical_level"] = {"units": len(o_all), "evaluations": q_evals, "violations": len(q_viol)}
+        if err:
+            harness_error = harness_error or err
+        for scn in q_viol:
+            if signature(mod, scn) not in known_sigs:
+                total.violations.append(scn)
     wall = _now() - t0
 
     # ---- report violations: dedupe, write replay, confirm in a fresh interpreter
     reported = {}
     exit_code = 0
+    unreproduced = []
     for scn in total.violations:
         original = scn.pop("_original", None)
         key = core.digest({k: v for k, v in scn.items() if k not in ("seed", "observed", "minimised_from", "note")})
@@ -393,8 +402,22 @@ def run_check(mod, tier, base_seed, budget_s=None, quiet=False):
             scn = original
             path = write_replay(mod, scn, len(reported))
             ok, proc = confirm_fresh(path)
+        if not ok and mod.PROPERTY != "C13":
+            # the worker had executed other scenarios before this one: if the library carries state from
+            # one reader / parse to the next, a single run in a fresh interpreter is the one case that
+            # works.  The smallest history that shows it is the scenario itself executed twice.
+            for cand in (scn, original):
+                if cand is None or ok:
+                    continue
+                cand = dict(cand, repeat=2)
+                path = write_replay(mod, cand, len(reported))
+                ok, proc = confirm_fresh(path)
+                if ok:
+                    scn = cand
+                    scn["observed"] = dict(scn.get("observed") or {}, history="holds on the first execution in a fresh process, violated on the second identical one")
+                    write_replay(mod, scn, len(reported))
         if not ok:
-            harness_error = (
+            unreproduced.append(
                 f"replay {path} did not reproduce in a fresh interpreter "
                 f"(rc={proc.returncode}) stdout={proc.stdout[-500:]} stderr={proc.stderr[-500:]}"
             )
@@ -455,6 +478,14 @@ def run_check(mod, tier, base_seed, budget_s=None, quiet=False):
         ev["coverage"]["distinct_counts_are_lower_bounds"] = f"digest store capped at {DIGEST_CAP}"
     if known_open:
         ev["coverage"]["known_findings_met"] = {sig: known_hits.get(sig, 0) for sig in known_open}
+    if unreproduced and exit_code == 0:
+        # nothing that was found could be shown again from its replay file: the run decides nothing
+        harness_error = harness_error or unreproduced[0]
+    elif unreproduced:
+        # other violations of this run did reproduce and are reported; these depended on what the worker
+        # had executed before (library state carried between scenarios) in a way `repeat` does not recreate
+        ev_note = f"{len(unreproduced)} further violation(s) seen by a worker did not reproduce from their replay files"
+        print("NOTE: " + ev_note, file=sys.stderr)
     if harness_error:
         ev["coverage"]["harness_error"] = harness_error
     edir = os.environ.get("VERIF_EVIDENCE_DIR") or os.path.join(core.VERIF_DIR, "evidence")
